@@ -1,0 +1,12 @@
+//go:build !verif
+
+// Package verifhook: with the `verif` build tag off all hooks are no-ops.
+package verifhook
+
+const Enabled = false
+
+func DurableWrite(site string) {}
+
+func EvmOp(op string, args ...interface{}) {}
+
+func SignerPersisted() {}
